@@ -1,6 +1,7 @@
 package props
 
 import (
+	"sync"
 	"encoding/json"
 	"fmt"
 	"strings"
@@ -394,6 +395,19 @@ func (p *c17) Run(tier string, seed int64, idx int) core.CaseResult {
 		}, 0)
 	}
 	seen := map[string]bool{}
+	// what the sequential validations returned, for the concurrent phase below
+	type c17Seq struct {
+		path    []string
+		allow   bool
+		outcome string
+	}
+	var seqs []c17Seq
+	outcomeOf := func(err error) string {
+		if err == nil {
+			return "accepted"
+		}
+		return fmt.Sprintf("%v %s", err, jsonStr(err))
+	}
 	try := func(path []string, kind string) {
 		for _, allow := range []bool{false, true} {
 			key := fmt.Sprintf("%v|%q", allow, path)
@@ -411,6 +425,9 @@ func (p *c17) Run(tier string, seed int64, idx int) core.CaseResult {
 			if pan {
 				res.Fail("C17/panic-in-validate", in, msg)
 				continue
+			}
+			if len(seqs) < 96 && (len(path) > 2 || err != nil) {
+				seqs = append(seqs, c17Seq{append([]string{}, path...), allow, outcomeOf(err)})
 			}
 			if (err == nil) != wantOK {
 				if err == nil {
@@ -513,6 +530,41 @@ func (p *c17) Run(tier string, seed int64, idx int) core.CaseResult {
 		}
 	}
 	rec(roots, nil)
+	// ---- the same validations from six goroutines at once, on the one compiled schema: each returns what it
+	// returned alone (a compiled schema is read, not written, by a validation)
+	if len(seqs) > 0 && len(res.Fails) == 0 {
+		const G = 6
+		diffs := make([]string, G)
+		var wg sync.WaitGroup
+		for g := 0; g < G; g++ {
+			wg.Add(1)
+			go func(g int) {
+				defer wg.Done()
+				for round := 0; round < 3; round++ {
+					for k := range seqs {
+						q := seqs[(k*7+g*13+round)%len(seqs)]
+						var err error
+						pan, msg, _ := core.Guard(func() { err = cr.MS.Validate(c17Ctx{q.allow}, nil, q.path) })
+						got := outcomeOf(err)
+						if pan {
+							got = "panic: " + msg
+						}
+						if got != q.outcome && diffs[g] == "" {
+							diffs[g] = fmt.Sprintf("path=%q allowIncomplete=%v\nalone:      %s\nconcurrent: %s", q.path, q.allow, q.outcome, got)
+						}
+					}
+				}
+			}(g)
+		}
+		wg.Wait()
+		res.Ev("concurrent_validations", int64(G*3*len(seqs)))
+		for _, d := range diffs {
+			if d != "" {
+				res.Fail("C17/concurrent-validation-differs", input, d)
+				break
+			}
+		}
+	}
 	if idx%53 == 0 {
 		res.Sample = map[string]interface{}{"walks": len(walks), "one_walk": func() []string {
 			if len(walks) > 0 {
